@@ -596,6 +596,7 @@ ASSUMPTIONS = [
   'callee contracts used as stubs (contracts/value_api.h): Value::_clear, Value::clone, Value(Value&&), operator=(Value&&), swap(Value&&), swap(Value&) and Context::allocate (Pool::keep, bounded) are ALSO proved on their real bodies by the jobs value_clear, value_clone, value_move_*, value_swap_*, ctx_pool_keep; the remaining stubs (Value constructors from payloads, Context::storeVariable / getSymbol / control stack, libstdc++ containers, libm) are assumed',
   'std::string / std::vector / std::list are modelled at API level (contracts/containers.h, strid.h and per-job ghost arrays): sizes and, where a clause needs it, content identity; iterator and index preconditions of the library are asserted, contents are not modelled unless the job says so',
   'std::regex (operator MATCHES, job op_match) is outside the cut: its constructor, assign, destructor and std::regex_match are a ghost model in contracts/op_match.c that answers arbitrarily (any boolean, or std::regex_error) and records which string a pattern object was compiled from and which pattern a match ran against; libstdc++\'s compiler and matcher themselves are trusted',
+  'Context::random (std::minstd_rand seeded with the process id; called by random(), job bi_random) is outside the cut: assumed to return some double and to touch nothing the contracts speak about; Context::createChildRuntime is an assumed stub in the createEnv jobs and proved on its real body by ctx_createChildRuntime (bounded: <= 2 declared slots)',
   'the exception class hierarchy used by the rendered catch dispatch (contracts/bloc_exc.h) is written by hand from blocc/exception.h and the C++ standard',
   'integer-to-integer conversions are modulo 2^N as GCC defines them (CBMC conversion-check results for them are ignored; float-to-integer conversions are checked)',
   'the structural induction over the expression tree that carries per-node contracts to whole programs is argued in DESIGN.md, not mechanised',
